@@ -151,6 +151,7 @@ Definition triple_prefixes (triple : str) : bool :=
 (* the part of a C parameter / return type that decides how it is lowered *)
 Inductive cparam :=
 | PArray (elem_const self_const : bool) (elem : N)   (* canonical type is an array of item [elem] *)
+| PFnPtr (ty : N)                                    (* canonical type: pointer to a function type (through any typedefs) *)
 | POther (ty : N).                                   (* anything else: the type itself *)
 
 Inductive rarg :=
@@ -160,6 +161,7 @@ Inductive rarg :=
 Definition lower_arg (p : cparam) : rarg :=
   match p with
   | PArray ec sc e => RPtr (ec || sc) e
+  | PFnPtr t => RTy t        (* the function pointer itself (Option<fn>): never one more `*mut` around it *)
   | POther t => RTy t
   end.
 
@@ -182,6 +184,7 @@ Inductive adjusted := APtr (pointee_const : bool) (pointee : N) | ASame (ty : N)
 Definition c_adjust (p : cparam) : adjusted :=
   match p with
   | PArray ec sc e => APtr (ec || sc) e
+  | PFnPtr t => ASame t
   | POther t => ASame t
   end.
 Definition rarg_matches (a : adjusted) (r : rarg) : Prop :=
